@@ -134,6 +134,43 @@ func (e *Env) Eval(x ast.Expr) (SVal, error) {
 			return SVal{}, err
 		}
 		return SVal{vc.tc.Unbox(vc.tc.SortOf(ty), v.T), ty}, nil
+	case *ast.CompositeLit:
+		ty, err := resolveTypeExpr(e.ctx, n.Type)
+		if err != nil {
+			return SVal{}, err
+		}
+		st, ok := under(ty).(*types.Struct)
+		if !ok {
+			return SVal{}, e.errf(x, "composite literal of non-struct type")
+		}
+		srt := vc.tc.SortOf(ty)
+		fields := make([]Term, st.NumFields())
+		for i := range fields {
+			fields[i] = vc.tc.Zero(vc.tc.SortOf(st.Field(i).Type()))
+		}
+		for _, el := range n.Elts {
+			kv, ok := el.(*ast.KeyValueExpr)
+			if !ok {
+				return SVal{}, e.errf(x, "composite literal needs key: value elements")
+			}
+			kn, _ := identName(kv.Key)
+			found := false
+			for i := 0; i < st.NumFields(); i++ {
+				if st.Field(i).Name() == kn {
+					v, err := e.Eval(kv.Value)
+					if err != nil {
+						return SVal{}, err
+					}
+					v = e.coerce(v, st.Field(i).Type())
+					fields[i] = v.T
+					found = true
+				}
+			}
+			if !found {
+				return SVal{}, e.errf(x, "no field %s", kn)
+			}
+		}
+		return SVal{vc.tc.MkStruct(srt, fields), ty}, nil
 	case *ast.SliceExpr:
 		v, err := e.Eval(n.X)
 		if err != nil {
@@ -801,6 +838,15 @@ func (e *Env) evalCall(n *ast.CallExpr) (SVal, error) {
 			}
 			vc.tc.Declare("err_is", "(declare-fun err_is (Iface Iface) Bool)")
 			return SVal{App(SBool, "err_is", a.T, b.T), boolT}, nil
+		case "zero":
+			if err := need(1); err != nil {
+				return SVal{}, err
+			}
+			ty, err := resolveTypeExpr(e.ctx, n.Args[0])
+			if err != nil {
+				return SVal{}, err
+			}
+			return SVal{vc.tc.Zero(vc.tc.SortOf(ty)), ty}, nil
 		case "substr":
 			a, err := e.Eval(n.Args[0])
 			if err != nil {
